@@ -40,6 +40,11 @@ func zzProducer() *Producer {
 		Info: []payload.VotesWithLockTime{{Candidate: nd.Bytes("candidate", 2), Votes: common.Fixed64(nd.I64("voteAmount")), LockTime: nd.U32("lockTime")}}}
 	copy(dv.TransactionHash[:], nd.Bytes("voteTx", 32))
 	p.detailedDPoSV2Votes = map[common.Uint168]map[common.Uint256]payload.DetailedVoteInfo{zzH168("stakeAddr"): {dv.ReferKey(): dv}}
+	// a stake address whose votes have all been cancelled or have expired keeps
+	// an empty vote map (later changes write into it)
+	if nd.Bool("addressWithNoVotesLeft") {
+		p.detailedDPoSV2Votes[common.Uint168{0x54, 0xEE}] = map[common.Uint256]payload.DetailedVoteInfo{}
+	}
 	p.expiredNFTVotes = map[common.Uint168]payload.DetailedVoteInfo{zzH168("nftStakeAddr"): dv}
 	p.depositAmount, p.totalAmount = common.Fixed64(nd.I64("depositAmount")), common.Fixed64(nd.I64("totalAmount"))
 	p.depositHash = zzH168("depositHash")
@@ -69,7 +74,10 @@ func ZZ_C23_producer() {
 	nd.Assert(q.selected == p.selected && q.workedInRound == p.workedInRound && q.randomCandidateInactiveCount == p.randomCandidateInactiveCount &&
 		q.inactiveCountingHeight == p.inactiveCountingHeight && q.lastUpdateInactiveHeight == p.lastUpdateInactiveHeight &&
 		q.inactiveCount == p.inactiveCount && q.inactiveCountV2 == p.inactiveCountV2, "producer_counters_round_trip")
-	nd.Assert(len(q.detailedDPoSV2Votes) == 1 && len(q.expiredNFTVotes) == 1, "producer_vote_maps_keep_their_entries")
+	nd.Assert(len(q.detailedDPoSV2Votes) == len(p.detailedDPoSV2Votes) && len(q.expiredNFTVotes) == 1, "producer_vote_maps_keep_their_entries")
+	for k := range p.detailedDPoSV2Votes {
+		nd.Assert(q.detailedDPoSV2Votes[k] != nil, "every_stake_address_keeps_its_vote_map")
+	}
 	again := new(bytes.Buffer)
 	q.Serialize(again)
 	nd.Assert(bytes.Equal(again.Bytes(), buf.Bytes()), "re_encoding_the_decoded_producer_gives_the_same_bytes")
@@ -161,4 +169,14 @@ func ZZ_C23_keyframe() {
 	again := new(bytes.Buffer)
 	q.Serialize(again)
 	nd.Assert(bytes.Equal(again.Bytes(), buf.Bytes()), "re_encoding_the_decoded_keyframe_gives_the_same_bytes")
+	// restoring into a frame that the constructor built and that already
+	// holds other content gives the same state
+	q2 := NewStateKeyFrame()
+	q2.Nicknames["stale"] = struct{}{}
+	q2.DepositOutputs["stale"] = 1
+	q2.LastBlockTimestamp = 77
+	nd.Assert(q2.Deserialize(bytes.NewReader(buf.Bytes())) == nil, "own_encoding_decodes_into_a_used_frame")
+	again2 := new(bytes.Buffer)
+	q2.Serialize(again2)
+	nd.Assert(bytes.Equal(again2.Bytes(), buf.Bytes()), "decoding_into_a_used_frame_gives_the_same_state")
 }
